@@ -1,40 +1,35 @@
 (* C09  The vector runtime agrees with the sequential runtime.
    Statements only; each is closed by [exact] of a lemma from Proofs/VamProofs.v.
-   The model (Model/Vam.v) mirrors runtime/vam/op/agg.go as it is.  The faithful
-   model does NOT satisfy the unrestricted statement: the theorems below hold on
-   explicit classes of columns, and the [refuted] theorems give witnesses
-   outside them (each class of witness is replayed on a real lake by the
-   harness and reported as a defect of the code). *)
+   The model (Model/Vam.v) mirrors runtime/vam/op/agg.go and the planner
+   predicate as they are after the fixes C09-01..06.  The theorems hold for
+   every input in which the grouped field is string-typed (count() by) / the
+   summed field holds int64 numbers (sum()); outside these type classes the
+   code still leaves the sequential semantics (open findings F-C09-1..3): the
+   [refuted] theorems give the witnesses, which the harness replays on real
+   lakes. *)
 From ZV Require Import Base.Prelude Model.Vam Model.VamCases Proofs.VamProofs.
 From Coq Require Import Permutation.
 Local Open Scope Z_scope.
 
 (* count() by <field>, one vectorised leg.  For every list of columns (any
-   number of objects and record types) made of plain string vectors, string
-   constants and well-formed string dictionaries none of whose keys the leg
-   has seen before, all without nulls: the operator does not panic and the
-   rows it emits report, for every value v, exactly the number of occurrences
-   of v in the decoded data (the sequential result). *)
-Theorem C09_count_by_agrees_partial : forall cols,
-  good_cols [] cols ->
+   number of objects and record types, any null masks) made of the vector kinds
+   a string-typed field can have -- plain string vectors, string constants,
+   string dictionaries satisfying the VNG dictionary invariant [col_wfb] that
+   the correspondence check evaluates on every real vector -- the operator does
+   not panic and the rows it emits report, for every value v, exactly the
+   number of occurrences of v in the decoded data (the sequential result),
+   including the null(string) row. *)
+Theorem C09_count_by_agrees_on_strings : forall cols,
+  Forall good_col cols ->
   exists st, v_count_by cols = Some st /\
              forall v, row_count st v = occ v (decode_all cols).
 Proof. exact count_by_agrees. Qed.
-Print Assumptions C09_count_by_agrees_partial.
-
-(* the dictionary hypotheses of the class are implied by the syntactic VNG
-   invariant that the correspondence check evaluates on every real vector *)
-Theorem C09_good_dict_from_wfb : forall pre e cnt idx nulls,
-  col_wfb (CDictStr e cnt idx nulls) = true -> no_nulls nulls ->
-  (forall s, In s e -> occ (VStr s) pre = 0) ->
-  good_col pre (CDictStr e cnt idx nulls).
-Proof. exact good_dict_from_wfb. Qed.
-Print Assumptions C09_good_dict_from_wfb.
+Print Assumptions C09_count_by_agrees_on_strings.
 
 (* several legs (any distribution of the objects over the legs): no leg
    panics and the per-key sums of the legs' rows are the occurrence counts. *)
 Theorem C09_count_by_legs_compose : forall legs,
-  Forall (good_cols []) legs ->
+  Forall (Forall good_col) legs ->
   Forall (fun leg => v_count_by leg <> None) legs /\
   forall v, legs_total legs v = occ v (decode_all (List.concat legs)).
 Proof. exact count_by_legs_compose. Qed.
@@ -42,65 +37,61 @@ Print Assumptions C09_count_by_legs_compose.
 
 (* hence adding/removing vector copies does not change the modelled result *)
 Theorem C09_count_by_vectors_irrelevant : forall legs seqvals,
-  Forall (good_cols []) legs ->
+  Forall (Forall good_col) legs ->
   Permutation seqvals (decode_all (List.concat legs)) ->
   forall v, legs_total legs v = occ v seqvals.
 Proof. exact count_by_vectors_irrelevant. Qed.
 Print Assumptions C09_count_by_vectors_irrelevant.
 
-(* sum(<field>): plain int64 vectors with any null mask, mixed with columns
-   holding no number (strings, missing field), at least one int64 present:
-   the vector result is the sequential one, int64 wrap-around included. *)
-Theorem C09_sum_agrees_partial : forall cols,
+(* sum(<field>): plain int64 vectors and int64 constants with any null mask,
+   mixed with columns holding no number (strings, missing field), at least one
+   int64 present: the vector result is the sequential one, int64 wrap-around
+   included.  (Dictionaries of numbers are not covered by this theorem.) *)
+Theorem C09_sum_agrees_on_int64_partial : forall cols,
   Forall sum_good cols ->
   ints_of (decode_all cols) <> [] ->
   seq_sum_int (decode_all cols) = Some (v_sum cols).
 Proof. exact sum_agrees. Qed.
-Print Assumptions C09_sum_agrees_partial.
+Print Assumptions C09_sum_agrees_on_int64_partial.
 
 (* the planner hands a leg to the vector runtime only when parallelism > 1,
-   the pool is non-empty, EVERY object has a vector copy and the leg has one
-   of the two shapes; with any vector copy missing it never does *)
-Theorem C09_vectorized_only_with_all_vectors : forall sh par nobj nvec,
-  vectorized sh par nobj nvec = true ->
-  (1 < par)%N /\ (0 < nobj)%N /\ nvec = nobj /\ sh <> SOther.
+   the pool is non-empty, EVERY object has a vector copy, the leg has one of
+   the two shapes, the scan carries no pushed-down filter and the plan has no
+   Slicer; with any vector copy missing it never does *)
+Theorem C09_vectorized_only_with_all_vectors : forall sh par nobj nvec filt sliced,
+  vectorized sh par nobj nvec filt sliced = true ->
+  (1 < par)%N /\ (0 < nobj)%N /\ nvec = nobj /\ sh <> SOther /\ filt = false /\ sliced = false.
 Proof. exact vectorized_only_with_all_vectors. Qed.
 Print Assumptions C09_vectorized_only_with_all_vectors.
 
-Theorem C09_not_vectorized_without_vectors : forall sh par nobj nvec,
-  (nvec < nobj)%N -> vectorized sh par nobj nvec = false.
+Theorem C09_not_vectorized_without_vectors : forall sh par nobj nvec filt sliced,
+  (nvec < nobj)%N -> vectorized sh par nobj nvec filt sliced = false.
 Proof. exact not_vectorized_without_vectors. Qed.
 Print Assumptions C09_not_vectorized_without_vectors.
 
-(* ---- refutations of the unrestricted statement (defects of the code) *)
+(* ---- refutations of the unrestricted statement (open findings) *)
 
-Theorem C09_count_by_refuted_dict_overwrites :
-  exists cols, Forall (fun c => col_wfb c = true) cols /\ disagrees cols.
-Proof. exact count_by_refuted_dict_overwrites. Qed.
-Print Assumptions C09_count_by_refuted_dict_overwrites.
-
-Theorem C09_count_by_refuted_null_string :
-  exists cols, Forall (fun c => col_wfb c = true) cols /\ disagrees cols.
-Proof. exact count_by_refuted_null_string. Qed.
-Print Assumptions C09_count_by_refuted_null_string.
-
+(* F-C09-1: a field that is not a string in some record: panic *)
 Theorem C09_count_by_refuted_nonstring_panics :
   v_count_by [CNum NInt [1; 2] []] = None /\ v_count_by [CMissing 1] = None /\
   v_count_by [CDictNum NInt [1; 2] [1; 1] [0; 1]%nat []] = None.
 Proof. exact count_by_refuted_nonstring_panics. Qed.
 Print Assumptions C09_count_by_refuted_nonstring_panics.
 
+(* F-C09-1/2: a constant of another type is dropped; a null-typed constant is
+   reported as null(string) *)
 Theorem C09_count_by_refuted_const :
   disagrees [CConst (KNum NInt 7) 3 []] /\ disagrees [CConst KNullV 2 []].
 Proof. exact count_by_refuted_const. Qed.
 Print Assumptions C09_count_by_refuted_const.
 
-Theorem C09_sum_refuted_const_ignored :
-  seq_sum_int (decode_all [CConst (KNum NInt 5) 3 []]) = Some 15 /\ v_sum [CConst (KNum NInt 5) 3 []] = 0.
-Proof. exact sum_refuted_const_ignored. Qed.
-Print Assumptions C09_sum_refuted_const_ignored.
-
+(* F-C09-3: no number at all gives 0 instead of null; floats are skipped *)
 Theorem C09_sum_refuted_no_values :
   seq_sum_int (decode_all [CMissing 2]) = None /\ v_sum [CMissing 2] = 0.
 Proof. exact sum_refuted_no_values. Qed.
 Print Assumptions C09_sum_refuted_no_values.
+
+Theorem C09_sum_refuted_float_ignored :
+  v_sum [CNum NFloat [4609434218613702656; 4612811918334230528] []] = 0.
+Proof. exact sum_refuted_float_ignored. Qed.
+Print Assumptions C09_sum_refuted_float_ignored.
